@@ -69,6 +69,15 @@ def pool_eval():
             for op in ['+', '&&', '||', ',', ';', '==']:
                 out.append(('eval', '%s %s %s' % (x, op, y), ['a=int:10']))
                 out.append(('evalimm', '%s %s %s' % (x, op, y), ['a=int:10']))
+    # identical operand expressions with side effects (each must be evaluated once), and operators lacking an operand
+    for op in BINOPS + [',', ';']:
+        out.append(('eval', '(a += 1; a) %s (a += 1; a)' % op, ['a=int:0']))
+        out.append(('eval', '(b = !b; b) %s (b = !b; b)' % op, ['b=bool:0']))
+        for x in ['1', 'true', '"s"', 'a', '()']:
+            out.append(('eval', '%s %s' % (x, op), ['a=int:10']))
+            out.append(('eval', '(%s %s)' % (x, op), ['a=int:10']))
+            out.append(('evalimm', '%s %s' % (x, op), ['a=int:10']))
+            out.append(('eval', '%s %s' % (op, x), ['a=int:10']))
     short = ['true', 'false', '1', '"text"', 'missing', '1 / 0', 'z = 1', 'zero != 0', 'a == 10', '()']
     for x in short:
         for y in short:
